@@ -208,6 +208,16 @@ class ndarray:
     def T(self):
         return ndarray._mk(self._buf, self.shape[::-1], self.dtype, self._off, self._strides[::-1], base=self)
 
+    def swapaxes(self, axis1, axis2):
+        perm = list(range(self.ndim))
+        perm[axis1], perm[axis2] = perm[axis2], perm[axis1]
+        return self.transpose(perm)
+
+    def take(self, indices, axis=None, **kw):
+        from . import npfuncs
+
+        return npfuncs.take(self, indices, axis=axis)
+
     def transpose(self, *axes):
         if not axes or axes == (None,):
             return self.T
